@@ -36,8 +36,10 @@ def gen(r) -> Dict[str, Any]:
     for _ in range(nsrc):
         t = r.choice([0, 0, 1, 5])
         evs = []
+        # a third of the sources tick in fractions of a second (several events inside one UTC second)
+        steps = [0, 0, 1, 2, 7] if r.random() < 0.65 else [0, 0.001, 0.25, 0.5, 0.125, 1, 0.75]
         for _ in range(r.randint(0, 6)):
-            t += r.choice([0, 0, 1, 2, 7])
+            t = round(t + r.choice(steps), 3)      # exact in microseconds: no float noise between sources
             evs.append(t)
         sources.append({"events": evs, "producer": r.random() < 0.3})
     if nsrc >= 2 and r.random() < 0.15:
